@@ -266,7 +266,8 @@ func VerifOverlay() {
 	prefix := []string{"", "./", "/"}[verifrt.Choice("spelling", 3)]
 	img := &fakeimg.Image{}
 	var specs [][]entrySpec
-	opaqueHides, shadowedDir := false, false
+	opaqueHides, shadowedDir, resurrect := false, false, false
+	hiddenAt := map[string]bool{} // directories deleted or replaced (with something beneath them) by some layer
 	for li, m := range sizes {
 		var layer []entrySpec
 		var entries []tarstub.Entry
@@ -332,6 +333,18 @@ func VerifOverlay() {
 		}
 		// cause tags of the known findings
 		for _, e := range specs[i] {
+			// a directory deleted or replaced by an earlier layer exists again (explicitly or as a parent)
+			if e.kind != kWhiteout {
+				below := e.path
+				if e.kind == kDir || e.kind == kOpaque {
+					below = e.path + "/x"
+				}
+				for d := path.Dir(below); d != "." && d != "/"; d = path.Dir(d) {
+					if hiddenAt[d] {
+						resurrect = true
+					}
+				}
+			}
 			// an opaque marker that actually hides lower-layer children
 			if e.kind == kOpaque {
 				for p := range state {
@@ -372,7 +385,21 @@ func VerifOverlay() {
 				}
 			}
 		}
+		for _, e := range specs[i] {
+			if e.kind == kWhiteout || e.kind == kReg || e.kind == kSymlink {
+				if n := state[e.path]; n != nil && n.kind == kDir {
+					hiddenAt[e.path] = true
+				}
+				// deleting/replacing a directory also hides every directory beneath it
+				for p, n := range state {
+					if under(e.path, p) && n.kind == kDir {
+						hiddenAt[p] = true
+					}
+				}
+			}
+		}
 		apply(state, specs[i], i)
+		verifrt.TagIf(resurrect, "C04-recreated-directory-resurrects-hidden-entries")
 		verifrt.TagIf(opaqueHides, "C04-opaque-whiteout-hides-lower-children")
 		verifrt.TagIf(shadowedDir, "C04-implicit-directory-shadows-lower-directory-metadata")
 		checkView(chain[i].FS(), state, i, true)
